@@ -6,6 +6,7 @@ exit 0 held (all obligations discharged; KNOWN-FINDING lines allowed)
 from __future__ import annotations
 
 import argparse
+import asyncio
 import concurrent.futures as cf
 import glob
 import hashlib
@@ -76,6 +77,7 @@ def process_top(job):
         custom = getattr(top, 'extra', {}).get('custom')
         if custom is not None:
             return custom(top, out, tier, seed)
+        inner_procs = getattr(top, 'extra', {}).get('procs') or inner_procs  # families of tiny lemmas: procs=1 (no fork per lemma)
         res = _big_frame(vcgen.verify, C.REG, top, tier)
         out['gen_s'] = time.time() - t0
         out['paths'] = res.paths
@@ -89,7 +91,9 @@ def process_top(job):
         if res.normal_paths == 0 and not res.exc_paths and not res.undecided:
             # every path died as infeasible (e.g. the assumed contract of a callee contradicts the state): nothing was proved
             out['undecided'].append('no feasible path reaches the end of the function: the check would be vacuous')
-        results = solve.discharge_all(res.obligations, timeout_ms, procs=inner_procs, seed=seed, both=(tier == 'thorough'))
+        # contract kwarg solver_procs=1: discharge in-process (forking a solver pool costs seconds per entry, which
+        # dominates for families of many small entries)
+        results = solve.discharge_all(res.obligations, timeout_ms, procs=getattr(top, 'extra', {}).get('solver_procs', inner_procs), seed=seed, both=(tier == 'thorough'))
         xc = out['xcheck'] = {'samples': 0, 'held': 0, 'violated': 0, 'precondition-false': 0, 'error': 0, 'no-model': 0, 'failed': []}
         for ob, r in zip(res.obligations, results):
             if ob.kind == 'xcheck':
@@ -97,15 +101,21 @@ def process_top(job):
                 xc['samples'] += 1
                 if r.get('status') != 'proved' or 'cex' not in r:
                     xc['no-model'] += 1
+                    if os.environ.get('PYVC_XCHECK_DEBUG'):
+                        print(f"xcheck {key}: no-model: {r.get('status')} {str(r.get('detail'))[:300]} {r.get('cex_error')}", file=sys.stderr)
                     continue
                 try:
                     rr = R.run_native(top, C.REG, r['cex'])
-                except Exception as ex:  # noqa: BLE001
+                except (Exception, asyncio.CancelledError) as ex:  # noqa: BLE001
                     rr = {'outcome': 'error', 'detail': repr(ex)}
                 oc = rr.get('outcome', 'error')
                 if oc == 'violated' and all(str(f).startswith(('exc#AttributeError', 'exc#TypeError', 'exc#NameError')) for f in rr.get('failed') or ['x']):
                     oc = 'error'  # only witnesses the stub environment (same rule as replay.confirms)
                 xc[oc] = xc.get(oc, 0) + 1
+                if os.environ.get('PYVC_XCHECK_DEBUG') and oc != 'held':
+                    print(f'xcheck {key}: {oc}: {rr.get("detail") or rr.get("failed")} {rr.get("exception") or ""}', file=sys.stderr)
+                    if os.environ.get('PYVC_XCHECK_DEBUG') == '2':
+                        print('   state:', json.dumps(R.to_jsonable(r['cex']))[:3000], file=sys.stderr)
                 if oc == 'violated' and len(xc['failed']) < 3:
                     xc['failed'].append({'failed': rr.get('failed'), 'state': R.to_jsonable(r['cex']), 'exception': rr.get('exception')})
                 continue
@@ -135,7 +145,7 @@ def process_top(job):
                 for label, stt in tries:
                     try:
                         rr = R.run_native(top, C.REG, stt)
-                    except Exception as ex:  # noqa: BLE001
+                    except (Exception, asyncio.CancelledError) as ex:  # noqa: BLE001
                         rr = {'outcome': 'error', 'detail': repr(ex)}
                     rr['from'] = label
                     rr['confirms'] = R.confirms(ob.name, ob.kind, ob.info, rr)
@@ -143,7 +153,7 @@ def process_top(job):
                     if rr['confirms']:
                         w['replay_state'] = stt
                         break
-                if not w['replay'].get('confirms') and 'state' in w and len(e['witnesses']) < 2:
+                if not w['replay'].get('confirms') and 'state' in w and len(e['witnesses']) < 2 and not getattr(top, 'extra', {}).get('no_native_search'):
                     try:
                         hit = R.search_near(top, C.REG, w['state'], lambda rr_: R.confirms(ob.name, ob.kind, ob.info, rr_))
                     except Exception:  # noqa: BLE001
@@ -153,6 +163,23 @@ def process_top(job):
                         rr['confirms'] = True
                         w['replay'] = rr
                 e['witnesses'].append(w)
+        if str(out.get('note') or '').startswith('bounded('):
+            # an entry labelled `bounded(k)` in its note is a bounded stand-in: its obligations are reported under
+            # `bounded` and never counted as discharged (a refuted one is still a violation)
+            nb = 0
+            for e in out['names'].values():
+                if not e['expect_sat']:
+                    e['kind'] = 'bounded'
+                    nb += e['n']
+            out['bounded'].append({'entry': key, 'note': out['note'], 'obligations': nb, 'all_proved': all(e['proved'] == e['n'] for e in out['names'].values())})
+        elif getattr(top, 'extra', {}).get('bounded'):
+            # a bounded stand-in (`bounded='<the bound>'` on the lemma): its obligations are reported under `bounded`
+            # and never counted as discharged; a refuted one still alarms
+            for name, e in out['names'].items():
+                if not e['expect_sat']:
+                    e['kind'] = 'bounded'
+            out['bounded'].append({'entry': key, 'bound': top.extra['bounded'], 'obligations': sum(e['n'] for e in out['names'].values() if not e['expect_sat']),
+                                   'undecided': sum(e['unknown'] for e in out['names'].values() if not e['expect_sat'])})
     except Exception:
         out['error'] = traceback.format_exc()
     out['wall_s'] = time.time() - t0
@@ -214,6 +241,9 @@ def safe(name):
 
 
 def main():
+    import logging
+
+    logging.disable(logging.CRITICAL)  # native replays / cross-check runs execute real bumble code: keep its log output out of the report
     ap = argparse.ArgumentParser()
     ap.add_argument('prop')
     ap.add_argument('--tier', default=os.environ.get('VERIF_TIER') or 'quick')
@@ -226,6 +256,8 @@ def main():
     if a.tier not in ('quick', 'thorough'):
         a.tier = 'quick'
     seed = int(os.environ.get('VERIF_SEED', '0') or 0)
+    if a.tier == 'thorough':
+        os.environ.setdefault('PYVC_XCHECK', '40')  # more CPython cross-check samples per entry (inherited by the workers)
     prop = a.prop
     t_start = time.time()
     from . import contracts as C
@@ -249,13 +281,16 @@ def main():
     ncpu = int(os.environ.get('PYVC_PROCS') or 0) or os.cpu_count() or 4
     outer = max(1, min(len(tops), 5, max(1, ncpu // 2)))
     inner = max(2, (ncpu - 1) // outer)
+    if all((getattr(t, 'extra', {}) or {}).get('procs') == 1 for t in tops):
+        # a family of tiny lemmas that discharge their obligations in-process: all the parallelism goes to the outer pool
+        outer = max(1, min(len(tops), ncpu))
     jobs = [(prop, top_key(t), a.tier, seed, inner, timeout_ms) for t in tops]
     results = []
     if len(jobs) == 1:
         results = [process_top(jobs[0])]
     else:
         with cf.ProcessPoolExecutor(max_workers=outer) as pool:
-            for out_ in pool.map(process_top, jobs):
+            for out_ in pool.map(process_top, jobs, chunksize=max(1, min(8, len(jobs) // (outer * 4)))):
                 results.append(out_)
                 if os.environ.get('PYVC_PROGRESS'):
                     print(f'  .. {out_["key"]} gen={out_.get("gen_s", 0):.1f}s wall={out_.get("wall_s", 0):.1f}s err={bool(out_.get("error"))}', file=sys.stderr, flush=True)
@@ -307,7 +342,7 @@ def main():
             if e.get('disagree'):
                 errors.append(f'{name}: solvers disagree: {e["details"]}')
                 continue
-            if e.get('kind') == 'bounded' and not e['refuted']:
+            if e.get('kind') == 'bounded' and not e['refuted'] and not e['unknown'] and not e.get('vacuous'):
                 continue  # bounded stand-ins are reported under `bounded`, never counted as discharged
             if e['refuted']:
                 # triage by replay
